@@ -301,6 +301,29 @@ pub fn run(run: &Run) {
             run.eval_one("history", &History { init: (pi % 2) as u8, steps }, &f);
         }
     }
+    if run.worker.0 == 3 % run.worker.1 {
+        // the same configuration again and again, only the declaration order of its appenders (and loggers) changes from
+        // step to step: whatever a reconfiguration may reuse of its predecessor, names decide where records go
+        for (hi, n) in [3usize, 9].into_iter().enumerate() {
+            let (base, mut targets) = crate::gen::cfgtree::sibling_family("app", n);
+            targets.truncate(12);
+            let mut steps = vec![];
+            for k in 0..6usize {
+                let mut cfg = base.clone();
+                let la = cfg.appenders.len();
+                cfg.appenders.rotate_left(k % la);
+                if k % 2 == 1 {
+                    cfg.appenders.reverse();
+                }
+                if k >= 3 {
+                    let ll = cfg.loggers.len();
+                    cfg.loggers.rotate_left((k * 2) % ll);
+                }
+                steps.push(Step { cfg, targets: targets.clone(), via_root_mut: None });
+            }
+            run.eval_one("history", &History { init: (hi % 2) as u8, steps }, &f);
+        }
+    }
     run.search("history", run.tier.pick(160, 4_000), strategy(), &f);
 }
 
@@ -320,7 +343,7 @@ pub fn replay(part: &str, case: serde_json::Value) -> Option<CaseResult> {
 pub fn meta() -> EvidenceMeta {
     EvidenceMeta {
         level: "exploration",
-        rule: "cases = histories of 1-8 cfgtree configurations whose most verbose level is steered per step (cap level and holder drawn: root / any logger incl. deep descendants), initialised through init_config, init_config_with_err_handler or init_raw_config (YAML + file appenders, single step) in a dedicated child process, then replaced with Handle::set_config; after every step: log::max_level() and Logger::max_log_level() equal the model's most verbose level, log::logger().enabled() equals the effective logger's threshold on a grid of 3-5 derived targets x 5 levels, and log! macro deliveries equal route() and come from the current configuration's appenders only. While set_config tears the outgoing configuration down, one of its appenders logs a record through the macros which the incoming configuration admits at its most verbose level: it must arrive as the incoming configuration prescribes. Three fixed histories over families of 2-24 sibling loggers growing and shrinking below the root, a logger and a nested logger. Four fixed histories over look-alike sibling names (published hash collisions, case, normalisation, trimming). non-trivial = a step whose maximum differs from the previous step's while the most verbose level is held by a non-root logger; distinct = FNV hash of the history".into(),
+        rule: "cases = histories of 1-8 cfgtree configurations whose most verbose level is steered per step (cap level and holder drawn: root / any logger incl. deep descendants), initialised through init_config, init_config_with_err_handler or init_raw_config (YAML + file appenders, single step) in a dedicated child process, then replaced with Handle::set_config; after every step: log::max_level() and Logger::max_log_level() equal the model's most verbose level, log::logger().enabled() equals the effective logger's threshold on a grid of 3-5 derived targets x 5 levels, and log! macro deliveries equal route() and come from the current configuration's appenders only. While set_config tears the outgoing configuration down, one of its appenders logs a record through the macros which the incoming configuration admits at its most verbose level: it must arrive as the incoming configuration prescribes. Two fixed histories of one configuration whose appenders and loggers are merely declared in another order at every step. Three fixed histories over families of 2-24 sibling loggers growing and shrinking below the root, a logger and a nested logger. Four fixed histories over look-alike sibling names (published hash collisions, case, normalisation, trimming). non-trivial = a step whose maximum differs from the previous step's while the most verbose level is held by a non-root logger; distinct = FNV hash of the history".into(),
         assumptions: vec!["log facade compiled without static max-level features".into()],
         mutants_caught: vec![],
     }
